@@ -1,5 +1,10 @@
 """omp.py — inventory of every `#pragma omp` in src/fqe/lib/*.c, emitted as Generated/OmpInventory.lean.
 
+Second table (`bodies`): for the statement each pragma governs, which variables declared OUTSIDE that statement are
+written directly inside it (arrays / dereferenced pointers, and plain scalars), and which functions are called.
+Props/C10.lean proves from it that no shared scalar is written inside any parallel construct and that the table equals
+the reviewed one.
+
 For each pragma: file, enclosing function, the normalised pragma text, and the header of the loop it governs (loop
 variable and bound expression) or `-` for a bare `parallel` region / `atomic` / `critical`.  Also the numeric constants
 the batching arithmetic depends on.  Props/C10.lean proves that every inventory entry is one of the reviewed loops
@@ -40,8 +45,119 @@ def functions(src):
             name, pending = None, None
 
 
+TYPES = {"const","unsigned","signed","int","long","short","double","float","char","size_t","uint64_t","int64_t","int32_t","uint32_t","bool","_Bool","complex","struct","static","register","volatile"}
+ASSIGN = re.compile(r"(\+\+|--|<<=|>>=|[-+*/%|&^]?=)(?!=)")
+
+def governed(lines, k):
+    """text of the statement starting at line k (for-loop with body, or a block)"""
+    text = "\n".join(lines[k:])
+    i = 0
+    while text[i].isspace(): i += 1
+    start = i
+    def match(i, o, c):
+        d = 0
+        while True:
+            if text[i] == o: d += 1
+            elif text[i] == c:
+                d -= 1
+                if d == 0: return i
+            i += 1
+    if text.startswith("for", i):
+        i = text.index("(", i); i = match(i, "(", ")") + 1
+    while text[i].isspace(): i += 1
+    if text[i] == "{":
+        i = match(i, "{", "}") + 1
+    elif text.startswith("for", i):
+        # nested unbraced for
+        j = text.index("(", i); j = match(j, "(", ")") + 1
+        while text[j].isspace(): j += 1
+        i = match(j, "{", "}") + 1 if text[j] == "{" else text.index(";", j) + 1
+    else:
+        i = text.index(";", i) + 1
+    return text[start:i]
+
+def split_top(s, sep):
+    out, d, cur = [], 0, ""
+    for ch in s:
+        if ch in "([{": d += 1
+        elif ch in ")]}": d -= 1
+        if ch == sep and d == 0:
+            out.append(cur); cur = ""
+        else: cur += ch
+    out.append(cur)
+    return out
+
+def analyse(body):
+    body = re.sub(r"^\s*#[^\n]*$", "", body, flags=re.M)       # pragma lines inside a region
+    declared = set()
+    tseq = r"(?:(?:const|unsigned|signed|int|long|short|double|float|char|size_t|uint64_t|int64_t|int32_t|uint32_t|bool|_Bool|complex|static|register|volatile|struct\s+\w+)\b\s*)+"
+    for m in re.finditer(r"(?:^|[;{}(])\s*(" + tseq + r")", body):
+        i = m.end()
+        # declarators up to ';' at depth 0 (or ')' closing a for header without init list)
+        d, j = 0, i
+        while j < len(body):
+            ch = body[j]
+            if ch in "([{": d += 1
+            elif ch in ")]}":
+                if d == 0: break
+                d -= 1
+            elif ch == ";" and d == 0: break
+            j += 1
+        for dcl in split_top(body[i:j], ","):
+            t = dcl.strip()
+            t = re.sub(r"^[\s\*\(]+", "", t)
+            t = re.sub(r"^(?:const|restrict)\s+", "", t)
+            mm = re.match(r"([A-Za-z_]\w*)", t)
+            if mm and mm.group(1) not in TYPES:
+                declared.add(mm.group(1))
+    writes, scalars = set(), set()
+    # find assignment operators and walk left to get the lvalue
+    for m in ASSIGN.finditer(body):
+        op = m.group(1)
+        i = m.start() - 1
+        if op in ("++", "--"):
+            # postfix: lvalue to the left; prefix: to the right
+            j = m.end()
+            rm = re.match(r"\s*([A-Za-z_]\w*)", body[j:])
+            left = body[:m.start()].rstrip()
+            if not (left and (left[-1].isalnum() or left[-1] in "_])")) and rm:
+                name = rm.group(1); sub = body[j + rm.end():].lstrip().startswith("[")
+                (writes if sub else scalars).add(name); continue
+        # skip if this '=' is part of <=, >=, !=, ==
+        if op == "=" and m.start() > 0 and body[m.start() - 1] in "<>!=": continue
+        while i >= 0 and body[i].isspace(): i -= 1
+        sub = False
+        while i >= 0 and body[i] == "]":
+            d = 0
+            while True:
+                if body[i] == "]": d += 1
+                elif body[i] == "[":
+                    d -= 1
+                    if d == 0: break
+                i -= 1
+            i -= 1; sub = True
+            while i >= 0 and body[i].isspace(): i -= 1
+        j = i
+        while j >= 0 and (body[j].isalnum() or body[j] == "_"): j -= 1
+        name = body[j + 1:i + 1]
+        if not name or name[0].isdigit(): continue
+        # member access a->b / a.b: take the base as written object
+        k = j
+        while k >= 0 and body[k].isspace(): k -= 1
+        deref = k >= 0 and body[k] == "*" 
+        if k >= 1 and body[k-1:k+1] == "->" or (k >= 0 and body[k] == "."):
+            continue
+        (writes if (sub or deref) else scalars).add(name)
+    calls = set(re.findall(r"([A-Za-z_]\w*(?:->\w+)?)\s*\(", body)) - {"for", "if", "while", "sizeof", "switch", "return"}
+    calls = {c for c in calls if c not in TYPES}
+    shared_w = sorted(w for w in writes if w not in declared)
+    shared_s = sorted(s for s in scalars if s not in declared)
+    return shared_w, shared_s, sorted(calls)
+
+
 def main():
     entries = []
+    bodies = []
     for fn in sorted(os.listdir(LIB)):
         if not fn.endswith(".c") or fn.startswith("_"):
             continue
@@ -71,6 +187,11 @@ def main():
                     raise SyntaxError(f"{fn}:{k + 1}: cannot read the loop governed by '#pragma omp {pragma}'")
                 loop = f"{ids[0]} from {lm.group(2).strip()} while {re.sub(r'\s+', ' ', lm.group(3).strip())}"
             entries.append((fn, func, pragma, loop))
+            try:
+                w_, s_, c_ = analyse(governed(lines, j + 1))
+            except (ValueError, IndexError) as exc:
+                raise SyntaxError(f"{fn}:{j + 2}: cannot delimit the statement governed by '#pragma omp {pragma}' ({exc})")
+            bodies.append((fn, func, w_, s_, c_))
     consts = {}
     for fn, pat in (("macros.h", r"#define\s+ZAXPY_STRIDE\s+(\d+)"), ("fqe_data.c", r"#define\s+STATES_PER_SET\s+(\d+)")):
         m = re.search(pat, open(os.path.join(LIB, fn)).read())
@@ -82,6 +203,14 @@ def main():
             "/-- (file, function, pragma, governed loop) for every `#pragma omp` in the C sources -/",
             "def inventory : List (String × String × String × String) := ["]
     text.append(",\n".join(f'  ("{a}", "{b}", "{c}", "{d}")' for a, b, c, d in entries))
+    text.append("]")
+    text.append("")
+    text.append("/-- per construct, in the same order: (file, function, shared arrays written directly (`x[..] = `, `*x = `),\n"
+                "    shared scalars written directly, functions called) inside the governed statement; `shared` = not declared\n"
+                "    inside that statement.  Writes through pointers declared inside the statement are not tracked. -/")
+    text.append("def bodies : List (String × String × List String × List String × List String) := [")
+    q = lambda l: "[" + ", ".join('"%s"' % x for x in l) + "]"
+    text.append(",\n".join(f'  ("{a}", "{b}", {q(c)}, {q(d)}, {q(e)})' for a, b, c, d, e in bodies))
     text.append("]")
     text.append("")
     for k, v in sorted(consts.items()):
